@@ -744,4 +744,48 @@ Proof.
   reflexivity.
 Qed.
 
+(* ---- the listener without a key (daemon error / malformed key): the oracle of
+        that situation holds for the model ---- *)
+Lemma server_auth_nokey : forall c q, fetch_key (keyreq_of q) = None -> server_auth c q = NoAuth.
+Proof.
+  intros c q Hk. unfold ScionGlue.server_auth. unfold keyreq_of in Hk. rewrite Hk.
+  repeat dmg; reflexivity.
+Qed.
+
+Lemma unauth_reply_plain : forall c q oob t s d n p,
+  server_auth c q = NoAuth -> rx_l4 q = Udp s d n p ->
+  server_step c q oob = Send ToLastHop t -> tx_e2e t = None.
+Proof.
+  intros c q oob t s d n p Ha Hl H. unfold ScionGlue.server_step in H. rewrite Hl, Ha in H.
+  repeat (dmh H; try discriminate); inversion H; reflexivity.
+Qed.
+
+Lemma plain_no_srv_auth : forall t so m, tx_e2e t = None ->
+  no_srv_auth [mkSobs so (deliver t nok) m] = true.
+Proof.
+  intros t so m He. unfold no_srv_auth, carries_auth. cbn [forallb so_rx].
+  assert (Hl : existsb (fun l => l =? LT_E2E) (rx_layers (deliver t nok)) = false).
+  { unfold deliver. cbn [rx_layers]. rewrite He. destruct (tx_l4 t); reflexivity. }
+  rewrite Hl, andb_false_r. reflexivity.
+Qed.
+
+Lemma srv_nokey_oracle_on_model : forall c q oob,
+  fetch_key (keyreq_of q) = None ->
+  C13_srv_nokey_ok (s_local_port c) (s_conn_port c) socks sender q
+    (reverse (h_path_type (rx_hdr q), h_path (rx_hdr q))) (obs_of c q oob) = true.
+Proof.
+  intros c q oob Hk. unfold C13_srv_nokey_ok, C13_srv_ok. cbv zeta.
+  rewrite (srv_clause_at_most_one c q oob), (srv_clause_addressing c q oob), (srv_clause_forward_due c q oob).
+  destruct (carries_auth spi_client q) as [a|]; cbn [andb];
+  (destruct (for_service (s_local_port c) q) eqn:Hs; [|reflexivity]);
+  destruct (for_service_inv _ _ Hs) as [s [n [p [Hl _]]]];
+  (destruct (server_step c q oob) as [why|d t] eqn:HA; [reflexivity|]);
+  (destruct d as [|host port];
+   [cbn [srv_obs]; apply plain_no_srv_auth;
+    exact (unauth_reply_plain c q oob t s _ n p (server_auth_nokey c q Hk) Hl HA)
+   |exfalso; apply (forward_iff mac reverse fetch_key ntp_handle) in HA;
+    destruct HA as [s0 [n0 [p0 [[_ [_ [_ [Hl' [_ [_ [_ [Hne _]]]]]]]] _]]]];
+    rewrite Hl in Hl'; inversion Hl'; congruence]).
+Qed.
+
 End SrvOracle.
